@@ -2,6 +2,8 @@ use crate::prng::Rng;
 use std::collections::BTreeMap;
 
 pub mod dos;
+pub mod layers;
+pub mod z64;
 pub mod align;
 pub mod zc;
 pub mod text;
@@ -51,6 +53,7 @@ pub trait Stream {
 pub fn all() -> Vec<Box<dyn Stream>> {
     vec![
         Box::new(dos::Dos),
+        Box::new(z64::Z64),
         Box::new(read::ReadStream),
         Box::new(write::WriteStream),
         Box::new(clones::Clones),
@@ -58,6 +61,8 @@ pub fn all() -> Vec<Box<dyn Stream>> {
         Box::new(text::Text),
         Box::new(zc::Zc),
         Box::new(align::Align),
+        Box::new(layers::Layers),
+        Box::new(layers::Damage),
     ]
 }
 
